@@ -298,6 +298,10 @@ def drive(recipe):
         t["w"] = [fx(2.0 * math.pi * x) for x in w]
     ne = recipe.get("ne", 0)
     epts = [(rng.uniform(0.05, math.pi - 0.05), rng.uniform(0.0, 2 * math.pi)) for _ in range(ne)]
+    if ne >= 8:
+        # two consecutive points whose azimuths agree to six or seven digits but are not the same (nothing may be kept "close enough")
+        epts[1] = (epts[1][0], epts[0][1] + (3.0e-6 if recipe["seed"] % 2 else -7.0e-7))
+        epts[3] = (epts[2][0] + 2.0e-6, epts[2][1])
     if ne >= 6:
         # a latitude, then a pole, then the same latitude again (nothing may be remembered of the pole)
         epts[ne - 3] = (epts[ne - 3][0], epts[ne - 3][1])
